@@ -88,7 +88,7 @@ func flip(b []byte, bit int) []byte {
 
 func TestC07(t *testing.T) {
 	r := ev.Start("C07", "exploration")
-	r.Rule("a corpus of genuine records (payload sizes 0/1/16/100, two partitions, two key generations) is mutated systematically: EVERY single-bit flip of Data and of the encrypted data key, every truncation and several extensions of both, every ordered pair of records exchanging Data / encrypted key / parent key meta / created stamps, parent meta pointing at every other existing key (other generation, other partition, the SK id) with Created in {0, +-1, min, max}, nil Key / ParentKeyMeta / EncryptedKey / Data, random JSON documents through json.Unmarshal; corrupted metastore rows (every bit flip of IK and SK ciphertext on a cold factory, nil or mispointing ParentKeyMeta, wrong Created, missing row, row of another id); Session.Load with loaders returning (nil,nil), (nil,err) and mutated records; storage-level corruption underneath the real plug-ins (DynamoDB items of the wrong shape/type behind both DynamoDB plug-ins, malformed key_record JSON behind the SQL plug-in) seen by cold cached/uncached factories. Oracle: error, or exactly the payload originally encrypted under the record the Data came from; never a panic (recover() per case, process death = violation). Distinct+non-trivial: distinct mutants that reached the AEAD.")
+	r.Rule("a corpus of genuine records (payload sizes 0/1/16/100, two partitions, two key generations) is mutated systematically: EVERY single-bit flip of Data and of the encrypted data key, every truncation and several extensions of both, every ordered pair of records exchanging Data / encrypted key / parent key meta / created stamps, parent meta pointing at every other existing key (other generation, other partition, the SK id) with Created in {0, +-1, min, max}, nil Key / ParentKeyMeta / EncryptedKey / Data, random JSON documents through json.Unmarshal; corrupted metastore rows (every bit flip of IK and SK ciphertext on a cold factory, nil or mispointing ParentKeyMeta, wrong Created, missing row, row of another id); Session.Load with loaders returning (nil,nil), (nil,err) and mutated records; storage-level corruption underneath the real plug-ins (DynamoDB items of the wrong shape/type behind both DynamoDB plug-ins, malformed key_record JSON behind the SQL plug-in) seen by cold cached/uncached factories; genuine and bit-flipped records presented to sessions closed once or twice and to sessions whose factory has been closed, for five cache configurations. Oracle: error, or exactly the payload originally encrypted under the record the Data came from; never a panic (recover() per case, process death = violation). Distinct+non-trivial: distinct mutants that reached the AEAD.")
 	r.Assume("AES-GCM tag forgery probability 2^-128 per mutant is treated as impossible")
 	failed := false
 	defer func() {
@@ -291,6 +291,10 @@ func TestC07(t *testing.T) {
 		// 10. storage-level corruption underneath the real metastore plug-ins
 		storagePass(r)
 		synctest.Wait()
+
+		// 11. records presented to sessions and factories that have already been closed (once or twice)
+		c.closedPass()
+		synctest.Wait()
 	})
 	r.Exhaustive(true)
 	r.Finish(t)
@@ -465,4 +469,102 @@ func suffixedPass(r *ev.Run, rng *rand.Rand) {
 		s.Close()
 	}
 	c.f.Close()
+}
+
+// closedPass: genuine and mutated records are decrypted / loaded (and a payload encrypted) through sessions that
+// have been closed once or twice, and through live sessions whose factory has been closed, for every cache
+// configuration: the original payload or an error, never other bytes, never a panic.
+func (c *c07) closedPass() {
+	ctx := context.Background()
+	cfgs := map[string]world.Cfg{"simple": world.Default(time.Hour, time.Minute, time.Minute)}
+	x := world.Default(time.Hour, time.Minute, time.Minute)
+	x.IKPolicy, x.IKCap, x.SKPolicy, x.SKCap = "lru", 2, "slru", 2
+	cfgs["lru2"] = x
+	x = world.Default(time.Hour, time.Minute, time.Minute)
+	x.SharedIK, x.IKPolicy, x.IKCap = true, "tinylfu", 4
+	cfgs["shared"] = x
+	x = world.Default(time.Hour, time.Minute, time.Minute)
+	x.SessCache, x.SessCap = true, 2
+	cfgs["sesscache"] = x
+	x = world.Default(time.Hour, time.Minute, time.Minute)
+	x.CacheIK, x.CacheSK = false, false
+	cfgs["nocache"] = x
+	for name, cfg := range cfgs {
+		for _, how := range []string{"session closed", "session closed twice", "factory closed, session open", "factory and session closed"} {
+			for _, warm := range []bool{false, true} {
+				f := c.w.Factory(cfg, "svc", "prod")
+				sess := map[string]*appencryption.Session{}
+				for _, g := range c.corpus {
+					if sess[g.part] == nil {
+						sess[g.part], _ = f.GetSession(g.part)
+					}
+				}
+				if warm {
+					for _, g := range c.corpus {
+						_, _ = sess[g.part].Decrypt(ctx, *world.CopyDRR(g.drr))
+					}
+				}
+				quiet := func(fn func()) { defer func() { _ = recover() }(); fn() }
+				switch how {
+				case "session closed":
+					for _, s := range sess {
+						quiet(func() { s.Close() })
+					}
+				case "session closed twice":
+					for _, s := range sess {
+						quiet(func() { s.Close() })
+						quiet(func() { s.Close() })
+					}
+				case "factory closed, session open":
+					quiet(func() { f.Close() })
+				default:
+					for _, s := range sess {
+						quiet(func() { s.Close() })
+					}
+					quiet(func() { f.Close() })
+				}
+				// asynchronous teardown (session-cache Remove goroutines) has finished before the closed objects are used:
+				// the misuse examined here is sequential use after Close, not use racing with Close
+				synctest.Wait()
+				for gi, g := range c.corpus {
+					desc := fmt.Sprintf("cfg=%s warm=%v, %s: record #%d of %q", name, warm, how, gi, g.part)
+					c.sess["closed"] = sess[g.part]
+					c.check("closed", world.CopyDRR(g.drr), "closed-genuine", func() string { return desc })
+					m := world.CopyDRR(g.drr)
+					if len(m.Data) > 0 {
+						m.Data[len(m.Data)/2] ^= 1
+					}
+					c.check("closed", m, "closed-bitflip", func() string { return desc + " (bit flipped)" })
+					func() {
+						defer func() {
+							if p := recover(); p != nil {
+								c.r.Violation("c07-panic:closed-load", fmt.Sprintf("Load panicked with %s: %v", desc, p), desc)
+							}
+						}()
+						out, err := sess[g.part].Load(ctx, 1, loaderFunc(func(context.Context, interface{}) (*appencryption.DataRowRecord, error) {
+							return world.CopyDRR(g.drr), nil
+						}))
+						if err == nil && !bytes.Equal(out, g.payload) {
+							c.r.Violation("c07-wrong-plaintext:closed-load", fmt.Sprintf("Load returned other bytes with %s", desc), desc)
+						}
+					}()
+					func() {
+						defer func() {
+							if p := recover(); p != nil {
+								c.r.Violation("c07-panic:closed-encrypt", fmt.Sprintf("Encrypt panicked with %s: %v", desc, p), desc)
+							}
+						}()
+						_, _ = sess[g.part].Encrypt(ctx, []byte("x"))
+					}()
+				}
+				// leave nothing behind: whatever is still open is closed now
+				for _, sx := range sess {
+					sx := sx
+					quiet(func() { sx.Close() })
+				}
+				quiet(func() { f.Close() })
+				synctest.Wait()
+			}
+		}
+	}
 }
